@@ -136,8 +136,13 @@ def correspondence(ctx):
     dsr = ent_dstream.run(ctx)
     for v_ in ctx.violations[nb_:]:
         v_["replay"] = dict(v_.get("replay") or {}, ent="dstream")
+    import ent_cstream
+    nb_ = len(ctx.violations)
+    csr = ent_cstream.run(ctx)
+    for v_ in ctx.violations[nb_:]:
+        v_["replay"] = dict(v_.get("replay") or {}, ent="cstream")
 
-    return dict(dstream_model_tie=dsr, evaluations=ev, distinct_nontrivial=len({l[:150] + str(len(l)) for l in lines}),
+    return dict(dstream_model_tie=dsr, cstream_model_tie=csr, evaluations=ev, distinct_nontrivial=len({l[:150] + str(len(l)) for l in lines}),
                 rule="compression call histories (single-threaded and 1-3 workers; a profile with one slow worker and job-sized pushes followed by flush) with every completed flush checked by the prefix decoder; "
                      "hint-following decoding of compositions with skippable frames at several output chunk sizes; distinct = distinct call lines",
                 samples=[dict(op=" ".join(lines[0].split()[:2]) + " ... " + " ".join(lines[0].split()[3:]), result=out[0][-80:])], flush_points_checked=nflush, hint_runs=len(hl))
@@ -147,6 +152,9 @@ def replay(ctx, data):
     if data.get("ent") == "dstream":
         import ent_dstream
         return ent_dstream.replay(ctx, data)
+    if data.get("ent") == "cstream":
+        import ent_cstream
+        return ent_cstream.replay(ctx, data)
     exe = frames.harness()
     rc, out, err = frames.run_lines(exe, [data["op"]])
     return dict(violates=True, note="re-executed", result=[o[-300:] for o in out])
